@@ -240,6 +240,10 @@ pub struct Profile {
     pub big_chunks: bool,
     /// now and then an append of 30-70 entries
     pub big_batches: bool,
+    /// purges may carry a newer term at a live index *below* the last one (a snapshot of a newer
+    /// leader that covers only a prefix): `last` then lies below live entries. Only for checks
+    /// without restarts and cache pressure (C01).
+    pub purge_inside_newer_term: bool,
 }
 
 #[derive(Debug, Clone, Copy, PartialEq, Eq)]
@@ -286,6 +290,7 @@ impl Profile {
             faults: FaultGen::None,
             big_chunks: false,
             big_batches: false,
+            purge_inside_newer_term: false,
         }
     }
 }
@@ -398,7 +403,7 @@ pub fn op_strategy(p: &Profile) -> BoxedStrategy<OpSpec> {
     add(p.w_truncate, any::<u16>().prop_map(|pos| OpSpec::Truncate { pos }).boxed());
     add(
         p.w_purge,
-        (any::<u16>(), prop_oneof![5 => Just(0u8), 1 => 1u8..=4], proptest::bool::weighted(0.08)).prop_map(|(pos, beyond, noop)| OpSpec::Purge { pos, beyond, noop }).boxed(),
+        (any::<u16>(), if p.purge_inside_newer_term { prop_oneof![5 => Just(0u8), 1 => 1u8..=5].boxed() } else { prop_oneof![5 => Just(0u8), 1 => 1u8..=4].boxed() }, proptest::bool::weighted(0.08)).prop_map(|(pos, beyond, noop)| OpSpec::Purge { pos, beyond, noop }).boxed(),
     );
     add(p.w_commit, (any::<u16>(), proptest::bool::weighted(0.15)).prop_map(|(pos, beyond)| OpSpec::Commit { pos, beyond }).boxed());
     add(p.w_flush, (proptest::bool::weighted(0.5), proptest::bool::weighted(0.3)).prop_map(|(wait, nocb)| OpSpec::Flush { wait, nocb: nocb && !wait }).boxed());
